@@ -16,8 +16,13 @@ Oracle (independent of the model, on the real objects):
   X  a REUSE marker reaches only a worker whose LAST_STATE is the supplied state,
      and in general the compiler state / root schema used in a transaction are
      the supplied ones.
-The real code violates B, U and X in specific, understood ways (see notes/C17.md);
-those are reported under stable cause keys, anything else under a per-history key.
+After the repairs 2709780 / 03eafed / ae526a3 the real code still violates B and U in one
+understood way (status 2: no acknowledgement although the worker synced — keys
+`unserializable-result-*`, a known finding).  The cause keys of the repaired families
+(`falsy-merge-*`, `partial-sync-*`, `state-pickle-failure-*`, `failed-compile-in-tx-*`,
+`reuse-marker-after-failed-compile-in-tx`, `unserializable-result-*-last-state/-reused`) are
+still computed: if one reappears it names the regression and is a VIOLATION.  Anything else
+is reported under a per-history key.
 """
 from __future__ import annotations
 
@@ -33,14 +38,15 @@ from lib import core
 
 PROPS = 'EdbVerif/Props/C17.lean'
 REQUIRED = [
-    'EdbVerif.C17.C17_used', 'EdbVerif.C17.C17_used_strict', 'EdbVerif.C17.C17_used_exact',
-    'EdbVerif.C17.C17_used_tx', 'EdbVerif.C17.C17_used_tx_strict',
-    'EdbVerif.C17.C17_belief', 'EdbVerif.C17.C17_belief_slot', 'EdbVerif.C17.C17_failed_sync_keeps_belief',
-    'EdbVerif.C17.C17_intx', 'EdbVerif.C17.C17_intx_reuse', 'EdbVerif.C17.C17_intx_fixed',
-    'EdbVerif.C17.C17_intx_counterexample_failed_compile', 'EdbVerif.C17.C17_intx_fix_tx_only_counterexample',
-    'EdbVerif.C17.C17_belief_counterexample_falsy', 'EdbVerif.C17.C17_belief_counterexample_partial',
-    'EdbVerif.C17.C17_used_counterexample_falsy', 'EdbVerif.C17.C17_used_counterexample_partial',
-    'EdbVerif.C17.C17_used_counterexample_tx_root', 'EdbVerif.C17.C17_intx_counterexample',
+    'EdbVerif.C17.C17_used_exact', 'EdbVerif.C17.C17_used_partial', 'EdbVerif.C17.C17_used_noreturn',
+    'EdbVerif.C17.C17_used_tx_partial', 'EdbVerif.C17.C17_used_tx_noreturn',
+    'EdbVerif.C17.C17_belief_partial', 'EdbVerif.C17.C17_failed_sync_changes_nothing',
+    'EdbVerif.C17.C17_failed_sync_preserves_agreement',
+    'EdbVerif.C17.C17_intx', 'EdbVerif.C17.C17_intx_reuse',
+    'EdbVerif.C17.C17_belief_counterexample_status2', 'EdbVerif.C17.C17_used_counterexample_status2',
+    'EdbVerif.C17.C17_used_tx_counterexample_status2', 'EdbVerif.C17.C17_intx_counterexample_none_state',
+    'EdbVerif.C17.C17_repaired_falsy_merge', 'EdbVerif.C17.C17_repaired_partial_sync',
+    'EdbVerif.C17.C17_repaired_last_state',
 ]
 
 KINDS = {'S': 'bytes', 'G': 'bytes', 'R': 'map', 'C': 'map', 'Y': 'map', 'P': 'state'}
@@ -277,18 +283,19 @@ class Gen:
     def _new(self, kind, slot):
         """a new token for a slot according to the regime"""
         rng, t = self.rng, self.toks
-        wild = self.regime in ('wild', 'noreturn')
+        wild = True          # every regime sees falsy and unpicklable values at every failure point
+        back = self.regime != 'noreturn'      # old identities may come back
         x = rng.random()
         old = self.hist.setdefault(slot, [])
         cur = old[-1] if old else None
         if KINDS[kind] == 'map':
             if wild and x < 0.22:
                 tok = t.new(kind, 'e')
-            elif wild and x < 0.30 or (self.regime == 'benign' and kind in 'RC' and x < 0.05):
-                tok = t.new(kind, 'b')          # benign: only early failure points (refl/dbcfg)
+            elif wild and x < 0.30:
+                tok = t.new(kind, 'b')
             elif cur is not None and x < 0.42 and t.desc[cur][1] == 'n':
                 tok = t.new(kind, 'n', cid=t.desc[cur][2])      # equal-but-not-identical twin
-            elif self.regime == 'wild' and len(old) > 1 and x < 0.60:
+            elif back and len(old) > 1 and x < 0.60:
                 tok = rng.choice(old[:-1])      # an old identity comes back
             else:
                 tok = t.new(kind, 'n')
@@ -299,7 +306,7 @@ class Gen:
                 tok = t.new(kind, 'z')
             elif cur is not None and x < 0.25 and t.desc[cur][1] == 'n':
                 tok = t.new(kind, 'n', cid=t.desc[cur][2])
-            elif self.regime == 'wild' and len(old) > 1 and x < 0.45:
+            elif back and len(old) > 1 and x < 0.45:
                 tok = rng.choice(old[:-1])
             else:
                 tok = t.new(kind, 'n')
@@ -324,8 +331,6 @@ class Gen:
 
     def _out(self, tx):
         x = self.rng.random()
-        if self.regime == 'benign':
-            return 'raise' if x < 0.2 else ('nostate' if (x < 0.25 and not tx) else 'ok')
         if x < 0.12:
             return 'raise'
         if x < 0.20 and tx:
@@ -334,7 +339,7 @@ class Gen:
             return 'nostate'
         if x < 0.23:
             return 'spf'
-        if x < 0.29:
+        if x < 0.29 and (tx or self.regime != 'nostatus2'):
             return 'unp'
         return 'ok'
 
@@ -564,7 +569,11 @@ async def run_history(loop, spec, rng, source):
                                      {'slot': sl, 'used': used, 'supplied': supplied})
             if used is not None and step['op'] == 'T':
                 ctok, root = used
-                if ctok != toks.cid(step['p']):
+                if step['p'] is None:
+                    # dbview invariant: a transaction always passes its pickled state
+                    st['none-state-requests-reaching-compiler'] = \
+                        st.get('none-state-requests-reaching-compiler', 0) + 1
+                elif ctok != toks.cid(step['p']):
                     cause = last_stale.get(w, 'unknown')
                     st['X-violations'] = st.get('X-violations', 0) + 1
                     if cause == 'unknown' or robs['send'] != 'reuse':
@@ -632,8 +641,9 @@ async def run_history(loop, spec, rng, source):
                         fail(f'{cause}-stale-belief',
                              'after this request the server believes the worker holds state it does '
                              f'not hold ({cause})', {'worker': j, 'slot': sl, 'belief': bt, 'actual': ac})
-                # last state
-                if toks.cid(bl) == al and bl != 'unk':
+                # last state: a non-None _last_pickled_state denotes the worker's LAST_STATE
+                # (None = "unknown": the pool forgets it whenever worker.call raises)
+                if bl is None or (toks.cid(bl) == al and bl != 'unk'):
                     last_stale.pop(j, None)
                 elif j not in last_stale:
                     cause = 'unknown'
@@ -669,7 +679,10 @@ def spec_tokens(toks):
 
 # ------------------------------------------------- hand-written witnesses
 def witness_specs():
-    """The counter-histories proved in Props/C17.lean, same token numbers.
+    """The concrete histories of Props/C17.lean, same token numbers: the
+    status-2 counter-histories (must still fail on the real code) and the
+    histories that failed before the repairs 2709780 / 03eafed / ae526a3
+    (regression witnesses: must be served correctly).
     tokens: 8 S1, 12 S2, 16 R1, 20 C1, 25 E(empty cfg), 28 G1, 34 Gbad, 36 Y1."""
     tokens = {'8': ['S', 'n', 'S1'], '12': ['S', 'n', 'S2'], '16': ['R', 'n', 'R1'],
               '20': ['C', 'n', 'C1'], '25': ['C', 'e', 'E'], '28': ['G', 'n', 'G1'],
@@ -686,19 +699,26 @@ def witness_specs():
 
     base = {'kind': 'fixed', 'nworkers': 2, 'ndbs': 1, 'regime': 'witness', 'init': init, 'tokens': tokens}
     return [
-        ('falsy', dict(base), [C(0, 8, 25, 28, 'ok', 400), C(0, 8, 20, 28, 'ok', 404)],
-         {'falsy-merge-stale-belief', 'falsy-merge-wrong-state-used'}),
-        ('partial', dict(base), [C(0, 12, 20, 34, 'ok', 400), C(0, 8, 20, 28, 'ok', 404)],
-         {'partial-sync-stale-belief', 'partial-sync-wrong-state-used'}),
+        # --- still failing: status 2 gives no acknowledgement (Props: …_counterexample_status2)
+        ('status2_belief', dict(base), [C(0, 12, 20, 28, 'unp', 400)],
+         {'unserializable-result-stale-belief'}),
+        ('status2_used', dict(base), [C(0, 12, 20, 28, 'unp', 400), C(0, 8, 20, 28, 'ok', 404)],
+         {'unserializable-result-stale-belief', 'unserializable-result-wrong-state-used'}),
+        ('status2_tx_root', dict(base), [C(1, 8, 20, 28, 'ok', 400), C(0, 12, 20, 28, 'unp', 404),
+                                         T(0, 8, ['ret', 400], 'ok', 408)],
+         {'unserializable-result-stale-belief', 'unserializable-result-wrong-root-schema-in-tx'}),
+        # --- repaired (Props: …_repaired): must be served correctly now
+        ('falsy', dict(base), [C(0, 8, 25, 28, 'ok', 400), C(0, 8, 20, 28, 'ok', 404)], set()),
+        ('partial', dict(base), [C(0, 12, 20, 34, 'ok', 400), C(0, 8, 20, 28, 'ok', 404)], set()),
         ('tx_root', dict(base), [C(1, 8, 20, 28, 'ok', 400), C(0, 12, 20, 34, 'ok', 404),
-                                 T(0, 8, ['ret', 400], 'ok', 408)],
-         {'partial-sync-stale-belief', 'partial-sync-wrong-root-schema-in-tx'}),
+                                 T(0, 8, ['ret', 400], 'ok', 408)], set()),
         ('intx', dict(base), [C(0, 8, 20, 28, 'ok', 400), T(0, 8, ['ret', 400], 'spf', 404),
-                              T(0, 8, ['ret', 400], 'ok', 408)],
-         {'state-pickle-failure-stale-last-state', 'state-pickle-failure-wrong-state-reused'}),
+                              T(0, 8, ['ret', 400], 'ok', 408)], set()),
         ('intx_failed_compile', dict(base),
          [C(0, 8, 20, 28, 'ok', 400), T(0, 8, ['ret', 400], 'mut', 404), T(0, 8, ['ret', 400], 'ok', 408)],
-         {'failed-compile-in-tx-stale-last-state', 'reuse-marker-after-failed-compile-in-tx'}),
+         set()),
+        ('intx_compile_spf', dict(base),
+         [C(0, 8, 20, 28, 'ok', 400), C(0, 8, 20, 28, 'spf', 404), T(0, 8, ['ret', 400], 'ok', 408)], set()),
     ]
 
 
@@ -805,9 +825,18 @@ def compare(ctx, spec, out, model_lines, stats):
     return n_dis
 
 
+def _src_hash():
+    """hash of the sources under test (they are read once, at the first rig)"""
+    h = hashlib.sha1()
+    for fn in ('pool.py', 'worker.py', 'worker_proc.py', 'state.py', 'queue.py'):
+        h.update(open(f'{core.REPO}/edb/server/compiler_pool/{fn}', 'rb').read())
+    return h.hexdigest()
+
+
 # ---------------------------------------------------------------------- run
 def run(ctx: core.Ctx):
     R = rig_mod()
+    src0 = _src_hash()
     proved = ctx.proof_stage(PROPS, ['EdbVerif.Props.C17', 'Driver.C17'], required=REQUIRED)
     ctx.log('proof stage:', 'ok' if proved else ctx.proof['broken'])
 
@@ -838,11 +867,12 @@ def run(ctx: core.Ctx):
                          '(model out of date, or the code was fixed: update Props/C17.lean)',
                          {'history': {'spec': spec, 'steps': steps}, 'expected': sorted(expect),
                           'got': sorted(got)}, no_input=True)
+            # (a repaired witness that fails again is reported by the oracle under its own key)
         # 2. random histories
         n_hist = ctx.budget(2100, 15000)
         for i in range(n_hist):
             rng = ctx.rng
-            regime = ('benign', 'noreturn', 'wild')[i % 3]
+            regime = ('nostatus2', 'noreturn', 'wild')[i % 3]
             toks = Toks(R)
             nw, ndbs = rng.choice([2, 3]), rng.choice([2, 3])
             gen = Gen(rng, toks, regime, nw, ndbs)
@@ -875,6 +905,10 @@ def run(ctx: core.Ctx):
         ctx.log(f'{n_ex} exhaustive histories (alphabet {len(alpha)}, length <= {maxlen}'
                 f'{"" if ctx.quick() else "; 10-letter alphabet at length 5"}) in {time.time() - t1:.1f}s')
     loop.close()
+    if _src_hash() != src0:
+        # e.g. somebody's mutation test touched /repo while this run had half of the modules loaded
+        raise core.Infra('edb/server/compiler_pool/*.py changed while the check was running; '
+                         'the observations mix two versions of the code - run again')
 
     # ---------------------------------------------------------- model run
     all_lines = []
@@ -926,8 +960,7 @@ def run(ctx: core.Ctx):
         'requests': n_req,
         'distinct_nontrivial': len(distinct),
         'rule': 'one evaluation = one request history executed on the real pool/worker rig and on the model; '
-                'non-trivial = at least 2 requests; distinct = distinct protocol text. Streams: the 5 Lean '
-                'counter-histories; random histories (2-3 workers, 2-3 dbs, length 5..80, regimes benign / '
+                'non-trivial = at least 2 requests; distinct = distinct protocol text. Streams: the 9 concrete histories of Props/C17.lean (3 status-2 counter-histories, 6 regression witnesses of the repairs); random histories (2-3 workers, 2-3 dbs, length 5..80, regimes nostatus2 / '
                 'noreturn / wild, each of the five parts changing or not, fresh / empty / equal-twin / '
                 'unpicklable / returning identities, compile outcomes ok|nostate|raise|raise-after-in-place-mutation|state-pickle-failure|'
                 'unserializable-result, compile_in_tx with returned / twin / garbage / None states, forced or '
@@ -954,7 +987,9 @@ def run(ctx: core.Ctx):
     ctx.assumptions += [
         'requests are executed one at a time (no two requests in flight); which worker serves is either '
         'forced (the others look busy) or left to the real WorkerQueue and then read back',
-        'callers never pass None for one of the five parts; init args are unpicklable-free',
+        'callers never pass None for one of the five parts; init args are unpicklable-free; a compile_in_tx '
+        'request passes its pickled state (dbview invariant) - requests passing None are executed and '
+        'compared with the model but exempt from oracle X',
         'process transport, worker restarts / late spawns, RemotePool and MultiTenantPool are not modelled',
         'identity of Python objects is modelled by token numbers; falsiness and unpicklability are '
         'attributes of tokens',
